@@ -97,7 +97,7 @@ func appendSlice(old, add []value, esz int64) []value {
 		nc = newLen
 	}
 	out := make([]value, newLen, nc)
-	copy(out, old)
+	copy(out, copyElems(old)) // aggregates are values: the old backing array keeps its own copies
 	copy(out[len(old):], add)
 	return out
 }
